@@ -90,6 +90,8 @@ class C12(Prop):
            ["send u%d a~b~c~" % i for i in (1, 4, 6, 7)] + ["cycle"] * 2 + ["conn", "cycle", "send u8 z~"] + ["cycle"] * 3)
         mk("table-grows", ["conn"] * 52 + ["cycle"] * 53 + ["send u%d a~b~" % i for i in (1, 2, 49, 50, 51, 52)] +
            ["cycle"] * 3 + ["close u51", "cycle", "conn", "cycle", "send u53 q~", "send u52 c~", "cycle", "cycle"])
+        mk("last-slot-of-table", ["conn"] * 49 + ["cycle"] * 50 + ["send u49 a~b~", "send u48 a~", "send u1 a~b~"] +
+           ["cycle"] * 3 + ["send u49 c~", "cycle", "cycle"])
         mk("kick-waiting-user", ["script u3 =k kick,u1;kick,u2", "script u2 =s kick,u2;gc"] + conns(3) +
            ["send u1 a~b~", "send u2 a~b~", "send u3 k~c~", "cycle", "cycle", "conn", "cycle", "send u4 s~", "cycle", "cycle"])
         mk("self-kick-and-drop", ["script u2 =s kick,u2;ecmd,u1,m1", "script u1 =d drop,u1;ecmd,u1,m1;gc", "script u1 =m1 it"] +
